@@ -579,7 +579,7 @@ def floors(total, tier):
     n = max(1, total.evaluations)
     msgs = []
     for name, lo in (("nontrivial", 0.3), ("has_empty_piece", 0.3), ("non_ascii", 0.1), ("shape_modules", 0.15), ("shape_inherit", 0.15),
-                     ("render_ok", 0.6), ("rounds_differ", 0.3), ("shape_silent", 0.04), ("cjk_text", 0.05), ("autoescape", 0.3), ("renamed", 0.1)):
+                     ("render_ok", 0.6), ("rounds_differ", 0.3), ("shape_silent", 0.04), ("cjk_text", 0.05), ("autoescape", 0.2), ("renamed", 0.05)):
         if lab.get(name, 0) < lo * n:
             msgs.append("%s %d/%d < %d%%" % (name, lab.get(name, 0), n, lo * 100))
     return "; ".join(msgs) or None
